@@ -123,6 +123,8 @@ class IEG:
         self.frames.append(fr)
         self.frame_memo[key] = fr
         if parent is not None:
+            self.__dict__.setdefault("child_at", {}).setdefault((parent.id, site), []).append(fr)
+        if parent is not None:
             self.inlined_sites += 1
         return fr
 
@@ -454,10 +456,19 @@ class IEG:
                 return [(self._node(child, 0, None), 'call')]
             # closures handed to external higher-order functions
             out = [(nxt, 'call')]
+            cname = self.callee(n) or ""
+            lazy = (cname.endswith("::poll_fn") or cname.startswith("std::iter::Iterator::")
+                    or cname.startswith("core::iter::") or "::iter::" in cname and not cname.endswith("::for_each"))
             for ai, a in enumerate(t["args"]):
                 tyd = self._operand_ty(body, a)
                 if tyd and tyd.get("closure"):
                     cbody = self.facts.by_path.get(tyd["closure"])
+                    if cbody is not None and lazy:
+                        # not invoked here: poll_fn closures run at the await (modelled there); iterator
+                        # adaptor closures run inside external iteration and must be free of events
+                        if not cname.endswith("::poll_fn") and not self._closure_is_pure(cbody):
+                            raise Undecidable("closure with I/O events handed to lazy adaptor %s at %s" % (cname, n.loc()))
+                        continue
                     if cbody is not None and not cbody.span.get("n"):
                         fe = self.resolve(f, a, (n.bb, -1))
                         child = self._new_frame(cbody, f, n.bb, 'closure', dict(f.subst), fe, t)
@@ -465,6 +476,20 @@ class IEG:
             return out
         # unreachable, resume, terminate, coroutine_drop ...
         return []
+
+    def _closure_is_pure(self, cbody):
+        for blk in cbody.blocks:
+            t = blk["t"]
+            if t["k"] != "call" or t.get("sp", {}).get("n"):
+                continue
+            f = t["func"]
+            p = norm(f.get("res", {}).get("path") or f.get("path", ""))
+            if p.startswith("async_io::") or p.startswith("<async_io::"):
+                return False
+            tr = norm(f.get("trait", ""))
+            if tr.endswith("AsyncRead") or tr.endswith("AsyncWrite") or tr.endswith("Future"):
+                return False
+        return True
 
     def _operand_ty(self, body, o):
         p = o.get("copy") or o.get("move")
@@ -506,6 +531,9 @@ class IEG:
         raise Undecidable("await on a composite of %d local components (%s) at %s" % (len(cos), s, n.loc()))
 
     # -- value resolution across frames -------------------------------------------------------------
+    # Lifted expressions: call sites are (frame id, block); parameters / captured variables of inlined
+    # frames are replaced by the caller's expressions; the result of an inlined crate-local call is
+    # replaced by the callee's returned expression.
     def resolve(self, frame, operand, at):
         e = frame.res.operand(operand, at)
         return self.lift(frame, e)
@@ -515,51 +543,98 @@ class IEG:
         return self.lift(frame, e)
 
     def lift(self, frame, e, depth=0):
-        """Substitute parameters / captured variables of inlined frames by the caller's expressions."""
-        if frame.parent is None or depth > 30:
-            return e
-        return self._map(e, lambda x: self._lift1(frame, x, depth))
+        memo = self.__dict__.setdefault("_lift_memo", {})
+        k = (frame.id, e)
+        if k in memo:
+            return memo[k]
+        memo[k] = e  # cycle guard
+        r = ir.simplify(self._lift(frame, e, depth))
+        memo[k] = r
+        return r
 
-    def _map(self, e, fn):
-        r = fn(e)
-        if r is not None:
-            return r
+    def _lift(self, frame, e, depth):
+        if depth > 40:
+            return e
         k = e[0]
+        rec = lambda x: self._lift(frame, x, depth + 1)
+        if k == 'param':
+            if frame.kind == 'call':
+                t = frame.call_term
+                i = e[1] - 1
+                if 0 <= i < len(t["args"]):
+                    pe = frame.parent.res.operand(t["args"][i], (frame.site, -1))
+                    return self.lift(frame.parent, pe, depth + 1)
+            return e
+        if k == 'upvar':
+            if frame.kind in ('closure', 'await', 'pollfn', 'select'):
+                r = self._upvar(frame, e[1])
+                if r is not None:
+                    return r
+            return e
         if k in ('field', 'variant'):
-            return (k, self._map(e[1], fn), e[2])
+            return (k, rec(e[1]), e[2])
         if k in ('ref', 'deref', 'discr'):
-            return (k, self._map(e[1], fn))
+            return (k, rec(e[1]))
         if k == 'index':
-            return (k, self._map(e[1], fn), self._map(e[2], fn) if isinstance(e[2], tuple) else e[2])
+            return (k, rec(e[1]), rec(e[2]) if isinstance(e[2], tuple) else e[2])
         if k == 'slice':
-            return (k, self._map(e[1], fn)) + tuple(e[2:])
+            return (k, rec(e[1])) + tuple(e[2:])
         if k == 'call':
-            return (k, e[1], tuple(self._map(a, fn) for a in e[2]), e[3])
+            site = e[3]
+            if isinstance(site[0], str):
+                # produced by this frame's resolver
+                bb = site[1]
+                kids = self.__dict__.get("child_at", {}).get((frame.id, bb), [])
+                if depth < 30:
+                    for child in kids:
+                        if child.kind in ('call', 'pollfn'):
+                            r = self._return_expr(child, depth + 1)
+                            if r is not None:
+                                return r
+                        elif child.kind == 'await':
+                            r = self._return_expr(child, depth + 1)
+                            if r is not None:
+                                return ('agg', 'adt', 'std::task::Poll::Ready', ((0, r),))
+                return (k, e[1], tuple(rec(a) for a in e[2]), (frame.id, bb))
+            return e
         if k == 'bin':
-            return (k, e[1], self._map(e[2], fn), self._map(e[3], fn))
+            return (k, e[1], rec(e[2]), rec(e[3]))
         if k == 'un':
-            return (k, e[1], self._map(e[2], fn))
+            return (k, e[1], rec(e[2]))
         if k == 'cast':
-            return (k, e[1], self._map(e[2], fn), e[3])
+            return (k, e[1], rec(e[2]), e[3])
         if k == 'agg':
-            return (k, e[1], e[2], tuple((n, self._map(x, fn)) for n, x in e[3]))
+            return (k, e[1], e[2], tuple((n, rec(x)) for n, x in e[3]))
         if k == 'phi':
-            return (k, tuple(self._map(x, fn) for x in e[1]))
+            outs = []
+            for x in e[1]:
+                y = rec(x)
+                if y not in outs:
+                    outs.append(y)
+            return outs[0] if len(outs) == 1 else (k, tuple(outs))
         return e
 
-    def _lift1(self, frame, x, depth):
-        if x[0] == 'param' and frame.kind == 'call':
-            t = frame.call_term
-            i = x[1] - 1
-            if 0 <= i < len(t["args"]):
-                return self.lift(frame.parent, frame.parent.res.operand(t["args"][i], (frame.site, -1)), depth + 1)
+    def _callee_path_at(self, frame, bb):
+        t = frame.body.blocks[bb]["t"]
+        if t["k"] != "call":
             return None
-        if x[0] == 'upvar' and frame.kind in ('closure', 'await', 'pollfn', 'select'):
-            r = self._upvar(frame, x[1])
-            if r is not None:
-                return r
-            return None
-        return None
+        cb = self.local_callee(frame, t["func"])
+        return cb.path if cb is not None else None
+
+    def _return_expr(self, child, depth):
+        memo = self.__dict__.setdefault("_ret_memo", {})
+        if child.id in memo:
+            return memo[child.id]
+        memo[child.id] = None
+        body = child.body
+        r = None
+        for bi, blk in enumerate(body.blocks):
+            if blk["t"]["k"] == "return" and not blk.get("cleanup"):
+                e = child.res.local(0, (bi, -1))
+                r = self.lift(child, e, depth)
+                break
+        memo[child.id] = r
+        return r
 
     def _upvar(self, frame, i):
         fe = frame.future_expr
